@@ -74,7 +74,11 @@ func checkC09(c *Ctx) {
 	allowedW := map[string]bool{"(*history.memory).Write": true, "(*history.fileHistory).Write": true, "(*history.Sources).Write": true, "history.NewSourceFromFile": true, "(*history.Sources).AddFromFile": true}
 	for _, w := range writers {
 		key := fnName(w.f) + ":" + w.what
-		r.Check(allowedW[fnName(w.f)], "C09.only-writers", key, p.IPos(w.in), "reviewed writer", "history entries are written outside the reviewed writers: "+w.what)
+		okW := allowedW[fnName(w.f)]
+		if !okW {
+			okW, _ = p.onlyReachedThrough(w.f, allowedW)
+		}
+		r.Check(okW, "C09.only-writers", key, p.IPos(w.in), "reviewed writer", "history entries are written outside the reviewed writers: "+w.what)
 	}
 
 	// ---- read-only (K10)
